@@ -1,9 +1,8 @@
 SPECIFICATION GSpec
 CONSTANTS
   Family = "sj_shape"
-  Versions <- VersionsThorough
   Width = "thorough"
   MaxForge = 0
   ScenarioSet = "none"
-INVARIANTS TypeOK MakeJoinExact MakeLeaveExact TemplateShape SendJoinExact InviteExact ReturnsCountersigned PerformJoinExact NoJoinWithoutBothHandlers BannedNeverJoins UnforgedPublicJoinSucceeds UnforgedRestrictedJoinSucceeds TamperedNeverAccepted Emit
+INVARIANTS TypeOK MakeJoinExact MakeLeaveExact TemplateShape SendJoinExact InviteExact InviteV3Exact ReturnsCountersigned PerformJoinExact NoJoinWithoutBothHandlers BannedNeverJoins UnforgedPublicJoinSucceeds UnforgedRestrictedJoinSucceeds TamperedNeverAccepted Emit
 CHECK_DEADLOCK FALSE
